@@ -10,6 +10,7 @@ import (
 	"bytes"
 	"context"
 	"fmt"
+	"hash/crc32"
 	"math/rand"
 	"strings"
 	"time"
@@ -149,7 +150,11 @@ func oneCase(run *harness.Run, key string, r *rand.Rand, cc caseCfg) {
 		cfg.Filter.KeyFilter = &config.FilterKeyConfig{PrefixKeyBlacklist: cc.PrefixBlack}
 	}
 
-	st := gen.GenStream(r, gen.StreamOptions{Hist: "h" + key[5:], NCmds: cc.NCmds, MaxDB: 3, PSelect: 0.12, PTxn: 0.12, PNoise: 0.15,
+	txnSel := 0.0
+	if crc32.ChecksumIEEE([]byte(key))%3 == 0 { // a third of the cases: transactions that switch databases inside MULTI/EXEC
+		txnSel = 0.3
+	}
+	st := gen.GenStream(r, gen.StreamOptions{Hist: "h" + key[5:], NCmds: cc.NCmds, MaxDB: 3, PSelect: 0.12, PTxn: 0.12, PTxnSelect: txnSel, PNoise: 0.15,
 		PCfgOut: 0.15, MaxTxnLen: minInt(int(cc.BatchCount)*3+1, 25), BigArgs: cc.BigArgs, BlackCmds: cc.CmdBlack, BlackPrefix: cc.PrefixBlack, StartDB: -1})
 	// the completion sentinel must not be configured out: issue it in a database that is kept
 	sdb := st.LastDB()
@@ -256,6 +261,28 @@ func oneCase(run *harness.Run, key string, r *rand.Rand, cc caseCfg) {
 		w["expected_around"] = e
 		w["got_around"] = g
 		w["expected_len"], w["got_len"] = len(exp), len(got)
+		var sc []string
+		for i := range st.Cmds {
+			c := &st.Cmds[i]
+			sc = append(sc, fmt.Sprintf("%d %s db%d g%d %s end=%d", i, c.Kind, c.DB, c.Group, c.Name, c.End))
+		}
+		w["source_stream"] = sc
+		reqs := srv.Requests()
+		if len(reqs) > 40 {
+			reqs = reqs[len(reqs)-40:]
+		}
+		var rs []string
+		for _, q := range reqs {
+			a := ""
+			if len(q.Args) > 0 {
+				a = string(q.Args[0])
+				if len(a) > 24 {
+					a = a[:24]
+				}
+			}
+			rs = append(rs, fmt.Sprintf("#%d c%d db%d %s %q -> %.40v", q.Seq, q.Conn, q.DB, q.Cmd, a, q.Reply))
+		}
+		w["last_target_requests"] = rs
 		return w
 	}
 
